@@ -544,14 +544,25 @@ fn check(c: &Case, obs: &mut Obs) -> Verdict {
     if c.trail > 0 {
         obs.class("blank:trailing");
     }
-    if c.blanks.iter().any(|b| *b > 0) {
+    let (deco, inter) = plan_usage(&e, &c.blanks);
+    if deco.iter().any(|b| *b > 0) {
         obs.class("blank:decorative");
     }
-    if c.blanks.iter().any(|b| *b == 3 || *b >= 5) {
+    let has = |v: &Vec<u8>, ch: char| v.iter().any(|b| blank_text(*b).contains(ch));
+    if has(&deco, '\n') {
         obs.class("blank:line-feed");
     }
-    if c.blanks.iter().any(|b| *b == 4) {
+    if has(&deco, '\t') {
         obs.class("blank:tab");
+    }
+    if deco.iter().any(|b| *b >= 6) {
+        obs.class("blank:mixed-run");
+    }
+    if inter.iter().any(|b| *b >= 2) {
+        obs.class("intersect:blank-run");
+    }
+    if inter.iter().any(|b| blank_text(*b).chars().skip(1).any(|ch| ch != ' ')) {
+        obs.class("intersect:run-with-non-space-after-first");
     }
     if c.path == Path::Translate {
         let n_dead = e.refs().iter().filter(|r| translate_area(&r.area, dc, dr).is_none()).count();
